@@ -64,3 +64,15 @@ Theorem C05_logical_order :
     /\ vsubz (canon dst k) (firsts_of dst) = vsubz (canon src k) (firsts_of src).
 Proof. exact C05_logical_order_proved. Qed.
 Print Assumptions C05_logical_order.
+
+(* The injectivity premise holds for every view reachable as in C01 (any rank, extents, operation sequence):
+   distinct valid index tuples designate distinct elements, so distinct positions of elements() are distinct cells. *)
+From BM Require Import Proofs.ViewProofs2 Proofs.InjProofs.
+Theorem C05_reachable_views_are_injective :
+  forall (sz : list Z) (ops : list op) (v : view),
+    Forall (fun n => 0 <= n) sz -> Forall c01_op ops -> run_ops ops (root_view (zb sz)) = Some v ->
+    let a := run_spec ops (root_spec sz) in
+    (forall i j, valid_idx (asz a) i -> valid_idx (asz a) j -> v_addr v i = v_addr v j -> i = j)
+    /\ (Forall (fun n => 0 < n) (asz a) -> inj_upto (e_addr v) (nel v)).
+Proof. exact reachable_injective_proved. Qed.
+Print Assumptions C05_reachable_views_are_injective.
